@@ -66,13 +66,34 @@ def gen_world(rng):
         path = posixpath.join(d, f"f{i}{G.STYLES[style][7]}")
         holder = f"20{10 + i} {rng.pick(G.HOLDERS)}"
         expr = rng.pick(EXPRS)
-        kind = rng.wpick([(10, "header"), (3, "dotlicense"), (1, "binary")] +
+        kind = rng.wpick([(10, "header"), (3, "dotlicense"), (1, "binary"), (2, "snippet")] +
                          ([(2, "override"), (2, "closest"), (1, "aggregate")] if glob_kind == "toml" else []) +
                          ([(3, "dep5")] if glob_kind == "dep5" else []))
         e = {"path": path, "kind": kind, "c": [f"SPDX-FileCopyrightText: {holder}"], "l": [expr], "reads": path}
         body = G.body_for(style)
         if kind == "header":
             files.append({"path": path, "content": _header(style, [holder], [expr]) + "\n\n" + body})
+        elif kind == "snippet":
+            # information that is only found when the whole file is read: a snippet after the 4 KiB header window,
+            # its marker placed on or next to a multiple of 4096 (block boundaries of any chunked reader) half of the time
+            expr2 = rng.pick(G.VALID)
+            head = _header(style, [holder], [expr]) + "\n\n" + body
+            single = G.can_single(style)
+            lead = (G.STYLES[style][0] + " ") if single else ""
+            k = rng.pick([1, 1, 2, 3])
+            off = 4096 * k - rng.randrange(0, 17) if rng.chance(0.6) else 4096 * k + rng.randrange(20, 900)
+            pad_len = off - len(head.encode()) - len(lead)
+            filler = ("x" * 63 + "\n") * (pad_len // 64) + "y" * (pad_len % 64 - 1) + "\n" if pad_len % 64 else ("x" * 63 + "\n") * (pad_len // 64)
+            snippet = "\n".join(lead + t for t in ("SPDX-SnippetBegin", f"SPDX-License-Identifier: {expr2}",
+                                                  "SPDX-SnippetCopyrightText: 2022 Snippet Author", "SPDX-SnippetEnd")) + "\n"
+            if not single:
+                start, _, end = G.STYLES[style][2]
+                snippet = start + "\n" + snippet + end + "\n"
+                filler = filler[: max(0, len(filler) - len(start) - 1)]
+            content = head + filler + snippet
+            files.append({"path": path, "content": content})
+            e["l"] = [expr, expr2]
+            e["marker_offset"] = content.encode().find(b"SPDX-SnippetBegin")
         elif kind == "dotlicense":
             # the file itself carries conflicting information that must be ignored
             other = rng.pick(["", _header(style, ["1999 Ignored Person"], ["LicenseRef-MustNotBeSeen"]) + "\n"])
@@ -188,6 +209,11 @@ def gen_world(rng):
         if p:
             files.append({"path": p, "content": f"text of {i}\n"})
     world = {"files": files}
+    if rng.chance(0.35):
+        # symlinks are never covered files: to a file, to a directory, dangling
+        links = [{"path": "docs/latest", "target": "no-such-target"}, {"path": "src/linkdir", "target": "../docs"},
+                 {"path": "linkfile.py", "target": entries[0]["path"]}, {"path": "src/loop", "target": "loop"}]
+        world["symlinks"] = rng.sample(links, rng.randint(1, 3))
     ignored = []
     if rng.chance(0.4):
         world["git"] = {"commit": True}
